@@ -292,3 +292,45 @@ Proof.
 Qed.
 
 End WithSchema.
+
+(* a refusal changes nothing (in the model: by construction of `step`) *)
+Lemma refusal_no_change : forall sch s o, snd (step sch s o) = RRefused -> fst (step sch s o) = s.
+Proof.
+  intros sch s [x e refs|x|xs]; unfold step; intro H.
+  - discriminate.
+  - destruct (remove sch (mem_policy sch) fuel0 x s); [discriminate | reflexivity].
+  - destruct (fold_opt (remove sch (db_policy sch) fuel0) xs s); [discriminate | reflexivity].
+Qed.
+
+(* what the flags mean for Entity._delete_ (mem_policy), one line per relationship kind x flag *)
+Lemma policy_one_to_many_default : forall sch e a,
+  a_kind (get_attr sch e a) = KSet -> a_kind (rev_attr sch e a) = KRef -> a_cascade_opt (get_attr sch e a) = None ->
+  mem_policy sch e a = if a_required (rev_attr sch e a) then ACascade else AUnlink.
+Proof. intros sch e a K R C. unfold mem_policy, cascade, is_set. rewrite K, C. cbn. destruct (a_required (rev_attr sch e a)); reflexivity. Qed.
+
+Lemma policy_explicit : forall sch e a b,
+  a_kind (get_attr sch e a) = KSet -> a_cascade_opt (get_attr sch e a) = Some b ->
+  mem_policy sch e a = if b then ACascade else if a_required (rev_attr sch e a) then ARefuse else AUnlink.
+Proof. intros sch e a b K C. unfold mem_policy, cascade. rewrite K, C. destruct b; [reflexivity|]. destruct (a_required (rev_attr sch e a)); reflexivity. Qed.
+
+Lemma policy_many_to_many : forall sch e a,
+  a_kind (get_attr sch e a) = KSet -> a_kind (rev_attr sch e a) = KSet -> a_cascade_opt (get_attr sch e a) = None ->
+  a_required (rev_attr sch e a) = false -> mem_policy sch e a = AUnlink.
+Proof. intros sch e a K R C Q. unfold mem_policy, cascade, is_set. rewrite K, C, Q. reflexivity. Qed.
+
+Lemma policy_one_to_one : forall sch e a,
+  a_kind (get_attr sch e a) = KRef -> a_kind (rev_attr sch e a) = KRef ->
+  mem_policy sch e a = if cascade sch e a then ACascade else if a_required (rev_attr sch e a) then ARefuse else AUnlink.
+Proof. intros sch e a K R. unfold mem_policy. rewrite K, R. destruct (cascade sch e a); [reflexivity|]. destruct (a_required (rev_attr sch e a)); reflexivity. Qed.
+
+(* the database (ON DELETE clauses) treats the rows that reference a deleted row exactly as _delete_ treats the partners,
+   for every relationship whose column is on the other side *)
+Lemma db_agrees_with_memory : forall sch e a,
+  a_target (rev_attr sch e a) = e -> a_reverse (rev_attr sch e a) = a ->
+  has_column sch e a = false -> a_kind (rev_attr sch e a) = KRef ->
+  db_policy sch e a = mem_policy sch e a.
+Proof.
+  intros sch e a Ht Hr H K. unfold db_policy, mem_policy, fk_on_delete. rewrite H, K. unfold rev_attr in *. rewrite Ht, Hr.
+  destruct (a_kind (get_attr sch e a)); destruct (cascade sch e a); try reflexivity;
+    destruct (a_required (get_attr sch (a_target (get_attr sch e a)) (a_reverse (get_attr sch e a)))); reflexivity.
+Qed.
